@@ -19,6 +19,8 @@ package stores
 //   wrong-value            a single-value read returns something else than the last value put
 //   unadmitted-estimation / unadmitted-result   a put was accepted without the required membership+witness
 //   failed-call-effect     a FAULTed invocation changed the store
+//   listed-id-unreadable   an id that listContainerSizes hands out for a stored estimation is refused by getContainerSize
+//   wrong-estimation       getContainerSize(listed id) names another container than the one the id was listed for
 
 import (
 	"bytes"
@@ -298,6 +300,79 @@ func (m *monitor) cleanupOlderThan(epoch *big.Int, delta int64, sel func(estKey)
 	}
 }
 
+// estIDOwner: which (epoch, container) of the reference table does a listed id `cnr‖enc epoch‖cid` denote?
+func (m *monitor) estIDOwner(id []byte) (epoch, cid string, ok bool) {
+	for k := range m.est {
+		if bytes.Equal(cat([]byte("cnr"), encS(k.epoch), hx.UnHex(k.cid)), id) {
+			return k.epoch, k.cid, true
+		}
+	}
+	return "", "", false
+}
+
+// checkEstGet judges one getContainerSize(id) result for an id of the reference table: the named container and
+// exactly the estimations put under (epoch, container) and not cleaned up.
+func (m *monitor) checkEstGet(id []byte, qe, qc string, gotCid []byte, ests []est) {
+	const site = "container.getContainerSize"
+	if hx.Hex(gotCid) != qc {
+		m.v(site, "wrong-estimation", fmt.Sprintf("getContainerSize(%s) names container %s, the id was listed for container %s", hx.Hex(id), hx.Hex(gotCid), qc))
+	}
+	var got [][]byte
+	for _, e := range ests {
+		got = append(got, estVal(e.from, e.size))
+	}
+	var want []entry
+	all := m.estEntries(func(k estKey, sz *big.Int) []byte { return estVal(hx.UnHex(k.node), sz) })
+	for k, sz := range m.est {
+		if k.epoch == qe && k.cid == qc {
+			want = append(want, entry{val: estVal(hx.UnHex(k.node), sz), epoch: qe})
+		}
+	}
+	m.compare(site, fmt.Sprintf("(epoch %s, container %s)", qe, qc), qe, id[3:], got, want, all)
+}
+
+// probeListedIDs: the read path list -> get. Every id that a listing hands out for an entry of the reference table
+// must be readable through getContainerSize and yield exactly what was put under it. (Ids that the listing returns
+// for a foreign epoch through the known prefix behaviour F10 are ids of the table too and are probed as well.)
+func (m *monitor) probeListedIDs(origin string, ids [][]byte) {
+	w := m.w
+	seen := map[string]bool{}
+	for _, id := range ids {
+		if seen[string(id)] {
+			continue
+		}
+		seen[string(id)] = true
+		qe, qc, ok := m.estIDOwner(id)
+		if !ok {
+			continue // not an id of the table: already judged by the comparison of the listing itself
+		}
+		st, err := w.c.Call(w.need("container"), "getContainerSize", id)
+		if err != nil {
+			m.v("container.getContainerSize", "listed-id-unreadable", fmt.Sprintf(
+				"id %s returned by %s for the estimations of (epoch %s, container %s) is refused by getContainerSize: %s",
+				hx.Hex(id), origin, qe, qc, shortErr(err)))
+			continue
+		}
+		f := itemArr(st[0])
+		var ests []est
+		for _, x := range itemArr(f[1]) {
+			ests = append(ests, itemEst(x))
+		}
+		m.checkEstGet(id, qe, qc, itemBytes(f[0]), ests)
+	}
+}
+
+func shortErr(err error) string {
+	s := err.Error()
+	if i := strings.LastIndex(s, "exception: "); i >= 0 {
+		s = s[i+len("exception: "):]
+	}
+	if len(s) > 80 {
+		s = s[:80]
+	}
+	return s
+}
+
 // ---- generic
 
 func (m *monitor) checkSet(site, query string, got [][]byte, want map[string]bool) {
@@ -458,6 +533,22 @@ func (m *monitor) observe(line, sig, method string, args []string, o *outcome, f
 		m.cleanupOlderThan(big10(epoch), 3, func(k estKey) bool { return k.cid == cid && k.node == node })
 		m.est[estKey{epoch, cid, node}] = size
 		m.checkEstStorage("container.putContainerSize")
+		// read path list -> get for the epoch just written
+		if st, err := m.w.c.Call(m.w.need("container"), "listContainerSizes", big10(epoch)); err == nil {
+			ids := bytesList(st[0])
+			found := false
+			for _, id := range ids {
+				if bytes.Equal(id, cat([]byte("cnr"), encS(epoch), hx.UnHex(cid))) {
+					found = true
+				}
+			}
+			if !found {
+				m.v("container.listContainerSizes", "missing-entries", fmt.Sprintf("query epoch %s: the id of the estimation just put for container %s is not listed", epoch, cid))
+			}
+			m.probeListedIDs("listContainerSizes("+epoch+")", ids)
+		} else {
+			m.v("container.listContainerSizes", "missing-entries", "listContainerSizes("+epoch+") FAULTs after "+line)
+		}
 	case "tick", "ctick":
 		if !o.halt {
 			return
@@ -490,6 +581,7 @@ func (m *monitor) observe(line, sig, method string, args []string, o *outcome, f
 			}
 		}
 		m.compare("container.listContainerSizes", "epoch "+args[0], args[0], encS(args[0]), o.list, want, all)
+		m.probeListedIDs("listContainerSizes("+args[0]+")", o.list)
 	case "citerall":
 		if !o.halt {
 			return
@@ -506,32 +598,26 @@ func (m *monitor) observe(line, sig, method string, args []string, o *outcome, f
 			}
 		}
 		m.compare("container.iterateAllContainerSizes", "epoch "+args[0], args[0], encS(args[0]), got, want, all)
-	case "citer", "cget":
+	case "cget":
+		id := hx.UnHex(args[0])
+		qe, qc, found := m.estIDOwner(id)
+		if !found {
+			return // not an id of something stored: the property says nothing
+		}
 		if !o.halt {
+			m.v("container.getContainerSize", "listed-id-unreadable", fmt.Sprintf(
+				"id %s, the id listContainerSizes hands out for the estimations of (epoch %s, container %s), is refused by getContainerSize", args[0], qe, qc))
 			return
 		}
-		site, qe, qc := "container.iterateContainerSizes", "", ""
-		var qp []byte
-		if method == "citer" {
-			qe, qc = args[0], args[1]
-			qp = cat(encS(qe), hx.UnHex(qc))
-		} else {
-			site = "container.getContainerSize"
-			id := hx.UnHex(args[0])
-			found := false
-			for k := range m.est { // which (epoch, container) does this id denote?
-				if bytes.Equal(cat([]byte("cnr"), encS(k.epoch), hx.UnHex(k.cid)), id) {
-					qe, qc, found = k.epoch, k.cid, true
-				}
+		m.checkEstGet(id, qe, qc, o.cid, o.ests)
+	case "citer":
+		if !o.halt {
+			if len(hx.UnHex(args[1])) == 32 && len(encS(args[0]))+35 <= 64 {
+				m.v("container.iterateContainerSizes", "missing-entries", "iterateContainerSizes FAULTs for a 32-byte container id: "+line)
 			}
-			if !found {
-				return // not an id of something stored: the property says nothing
-			}
-			qp = id[3:]
-			if hx.Hex(o.cid) != qc {
-				m.v(site, "wrong-value", fmt.Sprintf("getContainerSize(%s) names container %s", args[0], hx.Hex(o.cid)))
-			}
+			return
 		}
+		qe, qc := args[0], args[1]
 		var got [][]byte
 		for _, e := range o.ests {
 			got = append(got, estVal(e.from, e.size))
@@ -543,7 +629,7 @@ func (m *monitor) observe(line, sig, method string, args []string, o *outcome, f
 				want = append(want, entry{val: estVal(hx.UnHex(k.node), sz), epoch: qe})
 			}
 		}
-		m.compare(site, fmt.Sprintf("(epoch %s, container %s)", qe, qc), qe, qp, got, want, all)
+		m.compare("container.iterateContainerSizes", fmt.Sprintf("(epoch %s, container %s)", qe, qc), qe, cat(encS(qe), hx.UnHex(qc)), got, want, all)
 	// ------------------------------------------------ neofsid
 	case "iadd", "irm":
 		if !o.halt {
